@@ -39,7 +39,12 @@ def leaf(rng):
     if k == 4: return rng.choice(['', 'abc', 'x y', 'units', '[', ']'])
     if k == 5: return np.int64(rng.choice([0, 5, -9]))
     if k == 6: return np.float64(rng.choice([0.5, -1.25]))
-    if k == 7: return np.array([[1, 2], [3, 4]]) if rng.random() < 0.5 else np.array([0.5, 1.5])
+    if k == 7:
+        # C-contiguous arrays are written by orjson itself; transposed / strided / Fortran-ordered ones go through
+        # the registered numpy fallback serializer
+        return rng.choice([np.array([[1, 2], [3, 4]]), np.array([0.5, 1.5]), np.array([[1, 2, 3], [4, 5, 6]]).T,
+                           np.arange(6.0)[::2], np.asfortranarray(np.array([[1.5, 2.5], [3.5, 4.5]])),
+                           np.array([[True, False], [False, True]]).T, np.arange(8)[1::3]])
     if k in (8, 9): return rng.choice(MAGS) * units(rng.choice(UNITS))
     if k == 10: return units(rng.choice(UNITS)).units
     if k == 11: return rng.choice([np.array([1.0, 2.0]), np.array([1.5]), np.array([]), np.array([0.5, 1.0, 2.0])]) * units.fg
